@@ -11,6 +11,7 @@ use tensor_chain::block::{Block, BlockHeader};
 use tensor_chain::error::Result as ChainResult;
 use tensor_chain::network::{AppendEntries, AppendEntriesResponse, LogEntry, Message, PeerConfig, PreVote, PreVoteResponse, RequestVote, RequestVoteResponse, Transport};
 use tensor_chain::raft::{RaftConfig, RaftNode, RaftState, VerifRaftState};
+use tensor_chain::raft_wal::{RaftRecoveryState, RaftWal, RaftWalEntry};
 use tensor_store::SparseVector;
 
 // ---------------------------------------------------------------- recording transport
@@ -83,6 +84,9 @@ struct NodeSt {
     stale: bool,
     responded: Vec<(u8, bool)>,
     failures: Vec<(u8, u32)>,
+    /// what the node's write-ahead log would recover (term, vote): read back from a real RaftWal
+    /// with RaftRecoveryState after every transition; a crash restarts from this, not from memory
+    dur: (u64, Option<u8>),
 }
 
 #[derive(Clone, Debug, Hash, PartialEq, Eq, PartialOrd, Ord)]
@@ -140,6 +144,8 @@ struct Cfg {
     dups: u8,
     crashes: u8,
     seeds: bool,
+    /// nodes run on a real RaftWal and crashes restart from what it recovers
+    wal: bool,
 }
 
 fn name(i: u8) -> String {
@@ -162,7 +168,7 @@ fn embedding(cfg: &Cfg, i: u8) -> SparseVector {
 
 impl NodeSt {
     fn initial() -> NodeSt {
-        NodeSt { term: 0, voted_for: None, log: vec![], commit: 0, last_applied: 0, role: 0, leader: None, lead: None, votes: vec![], prevotes: vec![], in_pre_vote: false, stale: false, responded: vec![], failures: vec![] }
+        NodeSt { term: 0, voted_for: None, log: vec![], commit: 0, last_applied: 0, role: 0, leader: None, lead: None, votes: vec![], prevotes: vec![], in_pre_vote: false, stale: false, responded: vec![], failures: vec![], dur: (0, None) }
     }
     fn to_verif(&self) -> VerifRaftState {
         VerifRaftState {
@@ -211,8 +217,54 @@ impl NodeSt {
             stale: v.heartbeat_stale,
             responded: v.responded.iter().map(|(k, v)| (idx(k), *v)).collect(),
             failures: v.failures.iter().map(|(k, v)| (idx(k), *v)).collect(),
+            dur: (v.current_term, v.voted_for.as_deref().map(idx)),
         }
     }
+}
+
+/// one scratch WAL file per explorer thread (rewritten for every transition)
+fn wal_path() -> std::path::PathBuf {
+    thread_local! {
+        static P: std::path::PathBuf = {
+            static N: std::sync::atomic::AtomicUsize = std::sync::atomic::AtomicUsize::new(0);
+            let k = N.fetch_add(1, std::sync::atomic::Ordering::Relaxed);
+            std::path::PathBuf::from(env::scratch_root()).join(format!("c01-{k}.wal"))
+        };
+    }
+    P.with(|p| p.clone())
+}
+
+/// bytes of a WAL holding exactly one TermAndVote record for `dur`, produced by the real RaftWal
+fn seed_bytes(dur: (u64, Option<u8>)) -> Vec<u8> {
+    thread_local! { static CACHE: std::cell::RefCell<BTreeMap<(u64, Option<u8>), Vec<u8>>> = const { std::cell::RefCell::new(BTreeMap::new()) }; }
+    if dur == (0, None) {
+        return vec![];
+    }
+    CACHE.with(|c| {
+        c.borrow_mut()
+            .entry(dur)
+            .or_insert_with(|| {
+                let path = wal_path();
+                std::fs::write(&path, b"").expect("truncate scratch wal");
+                {
+                    let mut w = RaftWal::open(&path).expect("create scratch wal");
+                    w.append(&RaftWalEntry::TermAndVote { term: dur.0, voted_for: dur.1.map(name) }).expect("seed scratch wal");
+                }
+                std::fs::read(&path).expect("read seed")
+            })
+            .clone()
+    })
+}
+
+/// what a restart would recover from the scratch WAL (the production recovery function)
+fn recovered(path: &std::path::Path, before: (u64, Option<u8>)) -> (u64, Option<u8>) {
+    // nothing appended (the log is byte-identical to the seed): the durable pair is unchanged
+    if std::fs::read(path).expect("read scratch wal") == seed_bytes(before) {
+        return before;
+    }
+    let wal = RaftWal::open(path).expect("open scratch wal");
+    let r = RaftRecoveryState::from_wal(&wal).expect("replay scratch wal");
+    (r.current_term, r.voted_for.as_deref().map(idx))
 }
 
 fn raft_config(cfg: &Cfg) -> RaftConfig {
@@ -227,7 +279,16 @@ fn raft_config(cfg: &Cfg) -> RaftConfig {
 fn build(cfg: &Cfg, i: u8, st: &NodeSt) -> (RaftNode, Arc<RecTransport>) {
     let peers: Vec<String> = (0..cfg.n).filter(|j| *j != i).map(name).collect();
     let t = Arc::new(RecTransport { id: name(i), peers: peers.clone(), out: parking_lot::Mutex::new(vec![]) });
-    let node = RaftNode::new(name(i), peers, t.clone(), raft_config(cfg));
+    let node = if cfg.wal {
+        // the node's durable (term, vote) so far is laid down as one record (written once by the real
+        // RaftWal, then reused byte for byte); everything the handler persists is appended to it by
+        // the production code
+        let path = wal_path();
+        std::fs::write(&path, seed_bytes(st.dur)).expect("seed scratch wal");
+        RaftNode::with_wal(name(i), peers, t.clone(), raft_config(cfg), &path).expect("with_wal")
+    } else {
+        RaftNode::new(name(i), peers, t.clone(), raft_config(cfg))
+    };
     node.verif_import(&st.to_verif());
     if cfg.tiebreak {
         node.update_state_embedding(embedding(cfg, i));
@@ -286,6 +347,10 @@ impl RaftModel {
         let (node, t) = build(&self.cfg, i, before);
         let reply = f(&node, &t);
         let mut after = NodeSt::from_verif(&node.verif_export());
+        drop(node);
+        if self.cfg.wal {
+            after.dur = recovered(&wal_path(), before.dur);
+        }
         // Driver glue (trusted, stated in DESIGN): the synchronous start_election() reached from a
         // successful pre-vote builds a RequestVote and discards it; a complete driver broadcasts it.
         if self.cfg.pre_vote && before.role != 1 && after.role == 1 && after.term == before.term + 1 && t.out.lock().is_empty() && reply.is_none() {
@@ -483,7 +548,7 @@ impl Model for RaftModel {
                 let peers: Vec<String> = (0..self.cfg.n).filter(|j| *j != i).map(name).collect();
                 let t = Arc::new(RecTransport { id: name(i), peers: peers.clone(), out: parking_lot::Mutex::new(vec![]) });
                 let log = b.log.iter().enumerate().map(|(k, (t, tag))| LogEntry::new(*t, k as u64 + 1, block(*tag))).collect();
-                let node = RaftNode::with_state(name(i), peers, t, raft_config(&self.cfg), b.term, b.voted_for.map(name), log);
+                let node = RaftNode::with_state(name(i), peers, t, raft_config(&self.cfg), b.dur.0, b.dur.1.map(name), log);
                 let mut after = NodeSt::from_verif(&node.verif_export());
                 after.stale = false;
                 n.nodes[i as usize] = after;
@@ -647,17 +712,19 @@ fn main() {
     let mut rep = Report::new("C01", "model_checking");
     let thorough = rep.thorough();
     rep.rule("explicit-state BFS (stateright, 16 threads) over {deliver any in-flight message, duplicate (budget), election timer, time passing at a voter, heartbeat, propose, crash/restart from the durable triple (budget)}; every transition rebuilds one real RaftNode from its snapshot and runs the real handler / production sender; loss and reordering are inherent in the message-set semantics; budgets (max term, max log length, duplicates, crashes) are part of the state; seeds are scripted reachable states");
-    rep.assume("handlers are atomic (cluster.rs runs one receive loop); crash keeps exactly (term, vote, log) — WAL fidelity is C10's job");
+    rep.assume("handlers are atomic (cluster.rs runs one receive loop); in the 'on real WAL' configurations every node runs on a real RaftWal: after each transition the harness reads back what RaftRecoveryState recovers from the records the production code appended, and a crash restarts the node from that (term, vote) and its log; in the other configurations a crash keeps exactly the in-memory (term, vote, log) (byte-level WAL fidelity is C10's job)");
     rep.assume("trusted driver glue: after a successful pre-vote the synchronous start_election() discards the RequestVote it builds; the harness broadcasts that message as start_election_async would");
     let mut cfgs: Vec<(String, Cfg, usize)> = vec![];
-    let base = Cfg { n: 3, pre_vote: false, fast_path: false, tiebreak: false, max_term: 2, max_log: 2, dups: 1, crashes: 1, seeds: true };
+    let base = Cfg { n: 3, pre_vote: false, fast_path: false, tiebreak: false, max_term: 2, max_log: 2, dups: 1, crashes: 1, seeds: true, wal: false };
     if thorough {
         for (pv, fp, tb) in [(false, false, false), (true, false, false), (false, true, false), (false, false, true), (true, true, true)] {
             cfgs.push((format!("n3 prevote={pv} fastpath={fp} tiebreak={tb} term<=3 log<=3 dup<=2 crash<=2"), Cfg { pre_vote: pv, fast_path: fp, tiebreak: tb, max_term: 3, max_log: 3, dups: 2, crashes: 2, ..base.clone() }, 10));
         }
         cfgs.push(("n5 prevote=false term<=2 log<=1 dup<=0 crash<=1".into(), Cfg { n: 5, max_term: 2, max_log: 1, dups: 0, crashes: 1, ..base.clone() }, 9));
+        cfgs.push(("n3 on real WAL prevote=false term<=2 log<=2 dup<=1 crash<=2".into(), Cfg { crashes: 2, wal: true, ..base.clone() }, 10));
     } else {
         cfgs.push(("n3 prevote=false term<=3 log<=3 dup<=1 crash<=1".into(), Cfg { max_term: 3, max_log: 3, ..base.clone() }, 9));
+        cfgs.push(("n3 on real WAL prevote=false term<=2 log<=1 dup<=0 crash<=1".into(), Cfg { max_log: 1, dups: 0, wal: true, ..base.clone() }, 9));
         cfgs.push(("n3 prevote=true term<=2 log<=2 dup<=1 crash<=0".into(), Cfg { pre_vote: true, crashes: 0, ..base.clone() }, 10));
     }
     let only = rep.args.flag("cfg");
